@@ -10,5 +10,6 @@ trap 'rm -rf "$SCR"' EXIT
 cd "$ROOT/engine"
 go build -o "$SCR/schedinst" ./cmd/schedinst
 "$SCR/schedinst" -repo "$REPO" -out "$SCR" -shims "$ROOT/engine/shim" \
-  -pkg dpos/state:rand -pkg database/internal/treap:rand >/dev/null
+  -pkg dpos/state:rand -pkg database/internal/treap:rand \
+  -stmt "dpos/state:Arbiters.getCandidateIndexAtRandom,Arbiters.getRandomDposV2Producers" >/dev/null
 go build -tags "verif vsched" ${VERIF_MODFLAGS:-} -overlay "$SCR/overlay.json" -o "$VERIF_BIN" ./checks/c24
